@@ -225,7 +225,10 @@ def run(ctx, res):
         per[name] = {"accepting_paths": len(oks), "padded": len(padded), "content_paths": sorted({'/'.join(p) for o in oks for p in o[2].by_path})[:40]}
         # ---------------- R1 footprint
         padded_frame = [H.pbit_set(), flit(ge(P, 4)), flit(eq(Lin.atom(("mod", P.key(), 4)), 0))]
-        mP = {("len", inp.base): CSYM + P}
+        # the count byte is the last byte of the packet; on an accepted packet `len - 1` and `4 * (length field + 1) - 1`
+        # are the same offset, so both spellings of that cell are the same symbol here
+        last_cell = ("byte", inp.base, (Lin.atom(("len", inp.base)) - 1).key())
+        mP = {("len", inp.base): CSYM + P, last_cell: P}
         hdr_u = {byte(inp.base, 0).single_atom()[0]: byte(inp.base, 0) - 32,
                  byte(inp.base, 2).single_atom()[0]: Lin.atom(("sym", "U2", "u8")),
                  byte(inp.base, 3).single_atom()[0]: Lin.atom(("sym", "U3", "u8")),
@@ -257,8 +260,11 @@ def run(ctx, res):
                     if cx and not solver.feasible(joint):
                         continue
                     for o in byte_offs:
-                        n_r1 += 1
                         o2 = subst_deep(o, mP)
+                        # the count byte itself (the last byte of the packet, however its offset is spelled) is excepted
+                        if not o2.is_const() and solver.entails(joint, flit(eq(o2, CSYM + P - 1))):
+                            continue
+                        n_r1 += 1
                         res.ob(solver.entails(joint, flit(lt(o2, CSYM))), "padding-footprint", "/".join(path),
                                f"{name}: a content accessor depends only on bytes below C = len - padding: offset {o2} < C", pc=joint, entry=d)
                     for e_ in ends:
